@@ -70,12 +70,16 @@ class Cls:
 
 
 def _normalise_namedtuples(trees):
-    """A named tuple is a tuple: `N = namedtuple('N', ['a', 'b'])` (module level, or as the base of a class that only adds methods) makes
-    `N(x, y)` the tuple `(x, y)` and `e.a` the element `e[0]`.  Both are rewritten that way (in place, positions kept) so that every rule
-    sees the entries of the package's lists as the plain tuples they are.  An attribute read is rewritten only when its name is a field of
-    exactly one named tuple of the package and is used for nothing else in the package (no attribute store, method, property or class
-    attribute of that name), so that `e.a` cannot be anything but the field."""
+    """A named tuple is a tuple: `N = namedtuple('N', ['a', 'b'])` (module level, as the base of a class that only adds methods, or a
+    `class N(NamedTuple)` with annotated fields) makes `N(x, y)` the tuple `(x, y)`, `e.a` the element `e[0]`, `e._replace(a=v)` the tuple
+    `(v, e[1])`, and a call of one of its one-expression methods / properties that expression.  All are rewritten that way (in place, positions
+    kept) so that every rule sees the entries of the package's lists and tables as the plain tuples they are.  An attribute read is rewritten
+    when its receiver is known to be such a tuple (the result of the constructor or `_replace`, an element of a table into which only such
+    tuples are stored, a local bound to one of these, `self` inside the class), or when its name is a field of exactly one named tuple of the
+    package and is used for nothing else in the package (no attribute store, method, property or class attribute of that name)."""
+    import copy
     defs = {}
+    classes = {}
 
     def fields_of(call):
         if not (isinstance(call, ast.Call) and ((isinstance(call.func, ast.Name) and call.func.id == 'namedtuple') or
@@ -87,6 +91,7 @@ def _normalise_namedtuples(trees):
         if isinstance(f, ast.Constant) and isinstance(f.value, str):
             return f.value.replace(',', ' ').split()
         return None
+    SPECIAL = ('__new__', '__init__', '__getattr__', '__getitem__', '__iter__', '__len__', '__eq__', '__lt__', '__hash__')
     for t in trees:
         for st in t.body:
             if isinstance(st, ast.Assign) and len(st.targets) == 1 and isinstance(st.targets[0], ast.Name):
@@ -95,8 +100,13 @@ def _normalise_namedtuples(trees):
                     defs[st.targets[0].id] = fs
             elif isinstance(st, ast.ClassDef) and len(st.bases) == 1:
                 fs = fields_of(st.bases[0])
-                if fs and not any(isinstance(b, ast.FunctionDef) and b.name in ('__new__', '__init__', '__getattr__', '__getitem__', '__iter__', '__len__', '__eq__') for b in st.body):
+                if fs is None and ast.unparse(st.bases[0]) in ('NamedTuple', 'typing.NamedTuple'):
+                    fs = [b.target.id for b in st.body if isinstance(b, ast.AnnAssign) and isinstance(b.target, ast.Name)]
+                    if any(isinstance(b, ast.AnnAssign) and b.value is not None for b in st.body):
+                        fs = None       # defaults: the constructor call is not simply the tuple of its arguments
+                if fs and not any(isinstance(b, ast.FunctionDef) and b.name in SPECIAL for b in st.body):
                     defs[st.name] = fs
+                    classes[st.name] = st
     if not defs:
         return
     owners = {}
@@ -110,8 +120,6 @@ def _normalise_namedtuples(trees):
                 taken.add(x.attr)
             elif isinstance(x, (ast.FunctionDef, ast.AsyncFunctionDef, ast.ClassDef)):
                 taken.add(x.name)
-            elif isinstance(x, ast.ClassDef):
-                pass
         for c in [x for x in ast.walk(t) if isinstance(x, ast.ClassDef)]:
             for b in c.body:
                 if isinstance(b, ast.Assign):
@@ -120,8 +128,119 @@ def _normalise_namedtuples(trees):
                             taken.add(tg.id)
     field_index = {f: o[0][1] for f, o in owners.items() if len(o) == 1 and f not in taken}
 
+    # ---- one-expression members of the named-tuple classes (unique names only) ---------------------------------------------------------
+    member_names = {}
+    for t in trees:
+        for c in [x for x in ast.walk(t) if isinstance(x, ast.ClassDef)]:
+            for b in c.body:
+                if isinstance(b, ast.FunctionDef):
+                    member_names.setdefault(b.name, []).append(c.name)
+    members = {}        # name -> (class name, 'prop'|'method', params, expression)
+    for cn, cd in classes.items():
+        for b in cd.body:
+            if not isinstance(b, ast.FunctionDef) or member_names.get(b.name) != [cn] or b.name.startswith('__'):
+                continue
+            body = [x for x in b.body if not (isinstance(x, ast.Expr) and isinstance(x.value, ast.Constant))]
+            deco = [ast.unparse(d) for d in b.decorator_list]
+            if len(body) != 1 or not isinstance(body[0], ast.Return) or body[0].value is None or deco not in ([], ['property']):
+                continue
+            if b.args.vararg or b.args.kwarg or b.args.kwonlyargs or b.args.defaults or not b.args.args or b.args.args[0].arg != 'self':
+                continue
+            if any(isinstance(x, (ast.Lambda, ast.Yield, ast.Await, ast.NamedExpr)) for x in ast.walk(body[0].value)):
+                continue
+            members[b.name] = (cn, 'prop' if deco else 'method', [a.arg for a in b.args.args[1:]], body[0].value)
+
+    # ---- which expressions are known to be such tuples ---------------------------------------------------------------------------------
+    tables = {}          # attribute name -> named tuple: every `<x>.<attr>[k] = v` of the package stores one
+
+    def nt_of(e, local):
+        """name of the named tuple the expression is known to be, or None"""
+        if isinstance(e, ast.Call):
+            if isinstance(e.func, ast.Name) and e.func.id in defs:
+                return e.func.id
+            if isinstance(e.func, ast.Attribute):
+                if e.func.attr == '_replace' and not e.args and e.keywords and all(k.arg for k in e.keywords):
+                    r = nt_of(e.func.value, local)
+                    if r:
+                        return r
+                    cands = [n_ for n_, fs in defs.items() if all(k.arg in fs for k in e.keywords)]
+                    return cands[0] if len(cands) == 1 else None
+                if e.func.attr in members and members[e.func.attr][1] == 'method':
+                    cn = members[e.func.attr][0]
+                    inner = members[e.func.attr][3]
+                    if isinstance(inner, ast.Call) and isinstance(inner.func, ast.Attribute) and inner.func.attr == '_replace':
+                        return cn
+                    if isinstance(inner, ast.Call) and isinstance(inner.func, ast.Name) and inner.func.id == cn:
+                        return cn
+            return None
+        if isinstance(e, ast.Name):
+            return local.get(e.id)
+        if isinstance(e, ast.Subscript) and isinstance(e.value, ast.Attribute) and e.value.attr in tables:
+            return tables[e.value.attr]
+        return None
+
+    def local_types(fn, cls_nt):
+        local = {}
+        if cls_nt and fn.args.args and fn.args.args[0].arg == 'self':
+            local['self'] = cls_nt
+        for _ in range(3):
+            seen = {}
+            for st in ast.walk(fn):
+                if isinstance(st, ast.Assign) and len(st.targets) == 1 and isinstance(st.targets[0], ast.Name):
+                    seen.setdefault(st.targets[0].id, []).append(nt_of(st.value, local))
+                elif isinstance(st, (ast.For, ast.comprehension)) or isinstance(st, (ast.AugAssign, ast.AnnAssign, ast.NamedExpr, ast.With)):
+                    for x in ast.walk(st.target if hasattr(st, 'target') else st):
+                        if isinstance(x, ast.Name) and isinstance(x.ctx, ast.Store):
+                            seen.setdefault(x.id, []).append(None)
+            new = {k: v[0] for k, v in seen.items() if v and all(x is not None and x == v[0] for x in v)}
+            if cls_nt and 'self' in local:
+                new['self'] = cls_nt
+            if new == local:
+                break
+            local = new
+        return local
+
+    def functions(t):
+        for x in ast.walk(t):
+            if isinstance(x, ast.ClassDef):
+                for b in x.body:
+                    if isinstance(b, ast.FunctionDef):
+                        yield (x.name if x.name in classes else None), b
+        for b in t.body:
+            if isinstance(b, ast.FunctionDef):
+                yield None, b
+    for _ in range(3):
+        stores = {}
+        for t in trees:
+            for cls_nt, fn in functions(t):
+                local = local_types(fn, cls_nt)
+                for st in ast.walk(fn):
+                    if isinstance(st, ast.Assign):
+                        for tg in st.targets:
+                            if isinstance(tg, ast.Subscript) and isinstance(tg.value, ast.Attribute):
+                                stores.setdefault(tg.value.attr, []).append(nt_of(st.value, local))
+                    elif isinstance(st, ast.AugAssign) and isinstance(st.target, ast.Subscript) and isinstance(st.target.value, ast.Attribute):
+                        stores.setdefault(st.target.value.attr, []).append(None)
+        new = {a: v[0] for a, v in stores.items() if v and all(x is not None and x == v[0] for x in v)}
+        if new == tables:
+            break
+        tables = new
+
+    # ---- rewriting ---------------------------------------------------------------------------------------------------------------------------
+    def dup_ok(e):
+        return isinstance(e, (ast.Name, ast.Constant)) or (isinstance(e, ast.Attribute) and dup_ok(e.value)) or \
+            (isinstance(e, ast.Subscript) and dup_ok(e.value) and dup_ok(e.slice))
+
     class T(ast.NodeTransformer):
+        def __init__(self, local):
+            self.local = local
+
+        def visit_FunctionDef(self, n):
+            return n           # nested functions are visited on their own
+
         def visit_Call(self, n):
+            kind = nt_of(n, self.local)
+            recv_kind = nt_of(n.func.value, self.local) if isinstance(n.func, ast.Attribute) else None
             self.generic_visit(n)
             if isinstance(n.func, ast.Name) and n.func.id in defs and not any(isinstance(a, ast.Starred) for a in n.args):
                 fs = defs[n.func.id]
@@ -132,15 +251,313 @@ def _normalise_namedtuples(trees):
                     vals[k.arg] = k.value
                 if set(vals) == set(fs):
                     return ast.copy_location(ast.Tuple(elts=[vals[f] for f in fs], ctx=ast.Load()), n)
+            if isinstance(n.func, ast.Attribute) and n.func.attr == '_replace' and kind and dup_ok(n.func.value) and not n.args:
+                fs = defs[kind]
+                kw = {k.arg: k.value for k in n.keywords}
+                if all(k in fs for k in kw):
+                    elts = [kw[f] if f in kw else ast.copy_location(ast.Subscript(value=copy.deepcopy(n.func.value), slice=ast.Constant(i), ctx=ast.Load()), n)
+                            for i, f in enumerate(fs)]
+                    return ast.fix_missing_locations(ast.copy_location(ast.Tuple(elts=elts, ctx=ast.Load()), n))
+            if isinstance(n.func, ast.Attribute) and n.func.attr in members and members[n.func.attr][1] == 'method' and not n.keywords \
+                    and (recv_kind == members[n.func.attr][0] or recv_kind is None) and dup_ok(n.func.value):
+                cn, _, params, expr = members[n.func.attr]
+                if len(params) == len(n.args) and all(dup_ok(a) for a in n.args):
+                    return inline_member(expr, n.func.value, dict(zip(params, n.args)), cn, n)
             return n
 
         def visit_Attribute(self, n):
+            recv_kind = nt_of(n.value, self.local) if isinstance(n.ctx, ast.Load) else None
             self.generic_visit(n)
-            if isinstance(n.ctx, ast.Load) and n.attr in field_index:
+            if not isinstance(n.ctx, ast.Load):
+                return n
+            if recv_kind and n.attr in defs[recv_kind]:
+                return ast.copy_location(ast.Subscript(value=n.value, slice=ast.copy_location(ast.Constant(defs[recv_kind].index(n.attr)), n), ctx=ast.Load()), n)
+            if n.attr in members and members[n.attr][1] == 'prop' and (recv_kind == members[n.attr][0] or recv_kind is None) and dup_ok(n.value):
+                cn, _, _, expr = members[n.attr]
+                return inline_member(expr, n.value, {}, cn, n)
+            if n.attr in field_index:
                 return ast.copy_location(ast.Subscript(value=n.value, slice=ast.copy_location(ast.Constant(field_index[n.attr]), n), ctx=ast.Load()), n)
+            return n
+
+    def inline_member(expr, recv, bind, cn, at):
+        bind = dict(bind, self=recv)
+
+        class Put(ast.NodeTransformer):
+            def visit_Name(self_, x):
+                if x.id in bind and isinstance(x.ctx, ast.Load):
+                    return copy.deepcopy(bind[x.id])
+                return x
+        e = Put().visit(copy.deepcopy(expr))
+        for x in ast.walk(e):
+            ast.copy_location(x, at)
+        # the member's own body is written in terms of self.<field> / self._replace(...): normalise the substituted copy the same way
+        holder = ast.Expr(value=e)
+        tmp_local = {}
+        if isinstance(recv, ast.Name):
+            tmp_local[recv.id] = cn
+        wrapped = _TypedRecv(recv, cn)
+        holder = T(wrapped).visit(holder)
+        return ast.fix_missing_locations(holder.value)
+
+    class _TypedRecv(dict):
+        """local typing in which one particular receiver expression (by text) is known to be the named tuple"""
+        def __init__(self, recv, cn):
+            super().__init__()
+            self.text, self.cn = ast.unparse(recv), cn
+
+    _plain_nt_of = nt_of
+
+    def nt_of(e, local):      # noqa: F811  (receiver-aware wrapper)
+        if isinstance(local, _TypedRecv) and ast.unparse(e) == local.text:
+            return local.cn
+        return _plain_nt_of(e, local)
+
+    for t in trees:
+        for cls_nt, fn in list(functions(t)):
+            local = local_types(fn, cls_nt)
+            tr = T(local)
+            fn.body = [tr.visit(st) for st in fn.body]
+        # module-level and class-level statements outside functions
+        tr = T({})
+        for st in t.body:
+            if not isinstance(st, (ast.FunctionDef, ast.ClassDef)):
+                tr.visit(st)
+        ast.fix_missing_locations(t)
+
+
+CANONICAL_FIELDS = {
+    # (class, public getter) -> the private field the rules of this analyser call it by (the names on the pinned tree)
+    ('Buffer', 'level'): '_level',
+    ('Source', 'produced_parts'): '_produced_parts', ('Source', 'cost_of_produced_parts'): '_cost_of_produced_parts',
+    ('Sink', 'received_parts_count'): '_received_parts_count', ('Sink', 'value_of_received_parts'): '_value_of_received_parts',
+    ('Asset', 'value'): '_value', ('Asset', 'value_history'): '_value_history', ('Asset', 'id'): '_id', ('Asset', 'name'): '_name', ('Asset', 'env'): '_env',
+    ('Environment', 'now'): '_now',
+    ('PartFlowController', 'block_input'): '_block_input', ('PartFlowController', 'upstream'): '_upstream', ('PartFlowController', 'downstream'): '_downstream',
+    ('PartHandler', 'cycle_time'): '_cycle_time',
+    ('Maintainer', 'total_capacity'): '_capacity',
+    ('Sensor', 'last_sense'): '_last_sense', ('Sensor', 'probes'): '_probes',
+    ('ActionScheduler', 'current_state'): '_state',
+    ('ReservedResources', 'reserved_resources'): '_reserved_resources',
+}
+
+
+def _canonical_private_fields(trees):
+    """A private field that was renamed everywhere is the same field: where the public getter listed in CANONICAL_FIELDS returns another
+    private attribute of self than the name the rules use, and that name is not used for anything else in the package, the attribute is
+    read under the canonical name throughout (in place).  Only pure renames are covered: the getter must still return the one field."""
+    def returned_field(fn):
+        body = [x for x in fn.body if not (isinstance(x, ast.Expr) and isinstance(x.value, ast.Constant))]
+        if len(body) != 1 or not isinstance(body[0], ast.Return) or body[0].value is None:
+            return None
+        e = body[0].value
+        if isinstance(e, ast.Call) and isinstance(e.func, ast.Attribute) and e.func.attr == 'copy' and not e.args:
+            e = e.func.value
+        elif isinstance(e, ast.Call) and isinstance(e.func, ast.Name) and e.func.id in ('list', 'tuple') and len(e.args) == 1:
+            e = e.args[0]
+        elif isinstance(e, ast.Call) and isinstance(e.func, ast.Attribute) and ast.unparse(e.func) == 'copy.deepcopy' and len(e.args) == 1:
+            e = e.args[0]
+        if isinstance(e, ast.Attribute) and isinstance(e.value, ast.Name) and e.value.id == 'self' and e.attr.startswith('_') and not e.attr.startswith('__'):
+            return e.attr
+        return None
+    used = set()
+    for t in trees:
+        for x in ast.walk(t):
+            if isinstance(x, ast.Attribute):
+                used.add(x.attr)
+            elif isinstance(x, (ast.FunctionDef, ast.ClassDef)):
+                used.add(x.name)
+    ren = {}
+    for t in trees:
+        for c in t.body:
+            if not isinstance(c, ast.ClassDef):
+                continue
+            for m in c.body:
+                if isinstance(m, ast.FunctionDef) and (c.name, m.name) in CANONICAL_FIELDS and len(m.args.args) == 1 \
+                        and not any(isinstance(d, ast.Attribute) and d.attr in ('setter', 'deleter') for d in m.decorator_list):
+                    want = CANONICAL_FIELDS[(c.name, m.name)]
+                    got = returned_field(m)
+                    if got is not None and got != want and want not in used and got not in ren:
+                        ren[got] = want
+    if not ren or len(set(ren.values())) != len(ren):
+        return
+    for t in trees:
+        for x in ast.walk(t):
+            if isinstance(x, ast.Attribute) and x.attr in ren:
+                x.attr = ren[x.attr]
+
+
+def _normalise_deques(trees):
+    """`collections.deque()` used as a queue is read as the list it replaces: `deque()` is `[]`, `q.popleft()` is `q.pop(0)`,
+    `q.appendleft(x)` is `q.insert(0, x)` (append, pop, len, q[0], iteration and truthiness are spelled the same)"""
+    for t in trees:
+        names = set()
+        for x in ast.walk(t):
+            if isinstance(x, ast.ImportFrom) and x.module == 'collections':
+                names |= {a.asname or a.name for a in x.names if a.name == 'deque'}
+        has_mod = any(isinstance(x, ast.Import) and any(a.name == 'collections' for a in x.names) for x in ast.walk(t))
+        if not names and not has_mod:
+            continue
+
+        class T(ast.NodeTransformer):
+            def visit_Call(self, n):
+                self.generic_visit(n)
+                f = n.func
+                is_deque = (isinstance(f, ast.Name) and f.id in names) or (has_mod and isinstance(f, ast.Attribute) and ast.unparse(f) == 'collections.deque')
+                if is_deque and not n.keywords and len(n.args) <= 1:
+                    if not n.args:
+                        return ast.copy_location(ast.List(elts=[], ctx=ast.Load()), n)
+                    return ast.copy_location(ast.Call(func=ast.copy_location(ast.Name(id='list', ctx=ast.Load()), n), args=n.args, keywords=[]), n)
+                if isinstance(f, ast.Attribute) and f.attr == 'popleft' and not n.args and not n.keywords:
+                    f.attr = 'pop'
+                    n.args = [ast.copy_location(ast.Constant(0), n)]
+                elif isinstance(f, ast.Attribute) and f.attr == 'appendleft' and len(n.args) == 1 and not n.keywords:
+                    f.attr = 'insert'
+                    n.args = [ast.copy_location(ast.Constant(0), n), n.args[0]]
+                return n
+        T().visit(t)
+        ast.fix_missing_locations(t)
+
+
+def _flatten_private_bases(trees):
+    """A private base class with exactly one subclass in the package, defined in the same module and referenced nowhere else
+    (`class _PausableEventQueue: ...` / `class Environment(_PausableEventQueue)`), is an implementation detail of that subclass: its methods,
+    properties and class attributes that the subclass does not redefine -- and that do not use super() -- are read as members of the subclass,
+    which is where every rule about the subclass looks for them.  What the subclass overrides stays in the base (super() still finds it)."""
+    all_classes = [(t, c) for t in trees for c in t.body if isinstance(c, ast.ClassDef)]
+    for t, b in all_classes:
+        if not b.name.startswith('_') or b.name.startswith('__') or b.decorator_list or b.keywords:
+            continue
+        if any(ast.unparse(x) not in ('object',) for x in b.bases):
+            continue
+        subs = [(t2, c) for t2, c in all_classes if any(isinstance(x, ast.Name) and x.id == b.name for x in c.bases)]
+        if len(subs) != 1 or subs[0][0] is not t:
+            continue
+        c = subs[0][1]
+        if len(c.bases) != 1 or c.keywords:
+            continue
+        refs = sum(1 for t2 in trees for x in ast.walk(t2) if (isinstance(x, ast.Name) and x.id == b.name) or (isinstance(x, ast.Attribute) and x.attr == b.name)
+                   or (isinstance(x, ast.alias) and x.name.split('.')[-1] == b.name))
+        if refs != 1:
+            continue
+        own = {m.name for m in c.body if isinstance(m, (ast.FunctionDef, ast.ClassDef))} | \
+              {tg.id for m in c.body if isinstance(m, ast.Assign) for tg in m.targets if isinstance(tg, ast.Name)} | \
+              {m.target.id for m in c.body if isinstance(m, ast.AnnAssign) and isinstance(m.target, ast.Name)}
+        moved, kept = [], []
+        for m in b.body:
+            nm = m.name if isinstance(m, ast.FunctionDef) else (m.targets[0].id if isinstance(m, ast.Assign) and len(m.targets) == 1 and isinstance(m.targets[0], ast.Name) else None)
+            uses_super = isinstance(m, ast.FunctionDef) and any(isinstance(x, ast.Name) and x.id == 'super' for x in ast.walk(m))
+            if nm is not None and nm not in own and not uses_super and not (isinstance(m, ast.FunctionDef) and nm.startswith('__') and nm != '__init__'):
+                moved.append(m)
+            else:
+                kept.append(m)
+        if not moved:
+            continue
+        b.body = kept or [ast.copy_location(ast.Pass(), b)]
+        c.body = c.body + moved
+
+
+def _inline_class_constants(trees):
+    """`_UNKNOWN = (0.0, 0.0)` in a class body -- an immutable literal, the name bound nowhere else in the package and never stored through an
+    attribute -- is that literal wherever it is read as `self._UNKNOWN`, `cls._UNKNOWN`, `type(self)._UNKNOWN` or `<Class>._UNKNOWN`"""
+    import copy
+
+    def literal(e):
+        if isinstance(e, ast.Constant) and not isinstance(e.value, (str, bytes)) and e.value is not None and not isinstance(e.value, bool):
+            return True
+        if isinstance(e, ast.UnaryOp) and isinstance(e.op, (ast.USub, ast.UAdd)) and literal(e.operand):
+            return True
+        if isinstance(e, ast.Call) and isinstance(e.func, ast.Name) and e.func.id == 'float' and len(e.args) == 1 and not e.keywords \
+                and isinstance(e.args[0], ast.Constant) and isinstance(e.args[0].value, str):
+            return True
+        if isinstance(e, ast.Tuple) and e.elts and all(literal(x) for x in e.elts):
+            return True
+        return False
+    cands = {}
+    bound = {}
+    for t in trees:
+        for x in ast.walk(t):
+            if isinstance(x, ast.Attribute) and isinstance(x.ctx, (ast.Store, ast.Del)):
+                bound[x.attr] = bound.get(x.attr, 0) + 2
+            elif isinstance(x, (ast.FunctionDef, ast.ClassDef)):
+                bound[x.name] = bound.get(x.name, 0) + 2
+            elif isinstance(x, ast.ClassDef):
+                pass
+        for c in [x for x in ast.walk(t) if isinstance(x, ast.ClassDef)]:
+            for b in c.body:
+                if isinstance(b, ast.Assign):
+                    for tg in b.targets:
+                        if isinstance(tg, ast.Name):
+                            bound[tg.id] = bound.get(tg.id, 0) + 1
+                            if len(b.targets) == 1 and literal(b.value) and tg.id.startswith('_') and not tg.id.startswith('__'):
+                                cands[tg.id] = (c.name, b.value)
+                elif isinstance(b, ast.AnnAssign) and isinstance(b.target, ast.Name):
+                    bound[b.target.id] = bound.get(b.target.id, 0) + 2
+    consts = {k: v for k, v in cands.items() if bound.get(k) == 1}
+    if not consts:
+        return
+
+    class T(ast.NodeTransformer):
+        def visit_Attribute(self, n):
+            self.generic_visit(n)
+            if isinstance(n.ctx, ast.Load) and n.attr in consts and ast.unparse(n.value) in ('self', 'cls', 'type(self)', 'self.__class__', consts[n.attr][0]):
+                v = copy.deepcopy(consts[n.attr][1])
+                for x in ast.walk(v):
+                    ast.copy_location(x, n)
+                return v
             return n
     for t in trees:
         T().visit(t)
+        ast.fix_missing_locations(t)
+
+
+def _inline_module_constants(trees):
+    """`_NOT_WAITING = float('inf')` at module level (bound once, never re-bound, never shadowed in the function at hand) is that value wherever
+    the module reads the name: a named constant and the literal it stands for are the same program"""
+    import copy
+
+    def literal(e):
+        if isinstance(e, ast.Constant) and not isinstance(e.value, (str, bytes)):
+            return True
+        if isinstance(e, ast.UnaryOp) and isinstance(e.op, (ast.USub, ast.UAdd)) and literal(e.operand):
+            return True
+        if isinstance(e, ast.Call) and isinstance(e.func, ast.Name) and e.func.id == 'float' and len(e.args) == 1 and not e.keywords \
+                and isinstance(e.args[0], ast.Constant) and isinstance(e.args[0].value, str):
+            return True
+        if isinstance(e, ast.Tuple) and all(literal(x) for x in e.elts):
+            return True
+        return False
+    for t in trees:
+        consts = {}
+        counts = {}
+        for x in ast.walk(t):
+            if isinstance(x, ast.Name) and isinstance(x.ctx, (ast.Store, ast.Del)):
+                counts[x.id] = counts.get(x.id, 0) + 1
+            elif isinstance(x, (ast.Global, ast.Nonlocal)):
+                for nm in x.names:
+                    counts[nm] = counts.get(nm, 0) + 2
+            elif isinstance(x, ast.arg):
+                counts[x.arg] = counts.get(x.arg, 0) + 2
+            elif isinstance(x, ast.alias):
+                nm = (x.asname or x.name).split('.')[0]
+                counts[nm] = counts.get(nm, 0) + 2
+        for st in t.body:
+            if isinstance(st, ast.Assign) and len(st.targets) == 1 and isinstance(st.targets[0], ast.Name) and literal(st.value) \
+                    and counts.get(st.targets[0].id) == 1:
+                consts[st.targets[0].id] = st.value
+        if not consts:
+            continue
+
+        class T(ast.NodeTransformer):
+            def visit_Name(self, n):
+                if isinstance(n.ctx, ast.Load) and n.id in consts:
+                    v = copy.deepcopy(consts[n.id])
+                    for x in ast.walk(v):
+                        ast.copy_location(x, n)
+                    return v
+                return n
+        for st in t.body:
+            if isinstance(st, (ast.FunctionDef, ast.ClassDef)):
+                T().visit(st)
         ast.fix_missing_locations(t)
 
 
@@ -167,6 +584,11 @@ class Program:
             except SyntaxError as e:
                 raise AnalysisError(f'{rel}: does not parse: {e}')
             self.mods[name] = (name, p, tree, is_pkg, src)
+        _normalise_deques([t[2] for t in self.mods.values()])
+        _flatten_private_bases([t[2] for t in self.mods.values()])
+        _canonical_private_fields([t[2] for t in self.mods.values()])
+        _inline_module_constants([t[2] for t in self.mods.values()])
+        _inline_class_constants([t[2] for t in self.mods.values()])
         _normalise_namedtuples([t[2] for t in self.mods.values()])
         self.mods = {k: Mod(*t) for k, t in self.mods.items()}
         for m in self.mods.values():
